@@ -31,6 +31,11 @@ type EntryCfg struct {
 	Replay   string           `json:"replay"`    // "native" (default), "engine" (schedule-dependent)
 	Bounds   string           `json:"bounds"`
 	BoundsT  string           `json:"bounds_thorough"`
+	// optional per-entry overrides of the property-level settings (entries in another package)
+	Pkg      string            `json:"pkg"`
+	Harness  string            `json:"harness"`
+	Files    []string          `json:"files"`
+	Redirect map[string]string `json:"redirect"`
 }
 
 type PropCfg struct {
@@ -180,25 +185,50 @@ func checkMain(args []string) int {
 		json.Unmarshal(kb, &known)
 	}
 	hdir := filepath.Join(verif, pc.Harness)
+	_ = hdir
 	if replayFile != "" {
 		return replayMain(verif, repo, id, pc, hdir, replayFile)
 	}
 
-	overlay, err := buildOverlayFiles(repo, pc.Pkg, hdir, pc.Files)
-	if err != nil {
-		fmt.Println("INCONCLUSIVE property=" + id + " reason=overlay: " + err.Error())
-		return 2
+	type loaded struct {
+		prog *ssa.Program
+		pkg  *ssa.Package
+		err  error
 	}
-	prog, pkg, err := load(repo, pc.Pkg, overlay)
-	if err != nil {
-		fmt.Printf("INCONCLUSIVE property=%s reason=harness does not load against the current tree: %s\n", id, firstLine(err.Error()))
-		fmt.Fprintln(os.Stderr, err)
-		writeEvidence(verif, id, tier, seed, pc, nil, time.Since(t0), 0, []string{"load failed: " + firstLine(err.Error())})
-		return 2
+	loadCache := map[string]*loaded{}
+	loadFor := func(ec EntryCfg) (*loaded, PropCfg, string) {
+		epc := pc
+		if ec.Pkg != "" {
+			epc.Pkg = ec.Pkg
+		}
+		if ec.Harness != "" {
+			epc.Harness = ec.Harness
+		}
+		if ec.Files != nil {
+			epc.Files = ec.Files
+		}
+		if ec.Redirect != nil {
+			epc.Redirect = ec.Redirect
+		}
+		ehdir := filepath.Join(verif, epc.Harness)
+		key := epc.Pkg + "|" + epc.Harness + "|" + strings.Join(epc.Files, ",")
+		if l, ok := loadCache[key]; ok {
+			return l, epc, ehdir
+		}
+		l := &loaded{}
+		loadCache[key] = l
+		tl := time.Now()
+		overlay, err := buildOverlayFiles(repo, epc.Pkg, ehdir, epc.Files)
+		if err != nil {
+			l.err = err
+			return l, epc, ehdir
+		}
+		l.prog, l.pkg, l.err = load(repo, epc.Pkg, overlay)
+		if l.err == nil {
+			fmt.Fprintf(os.Stderr, "[%s] loaded %s in %v\n", id, epc.Pkg, time.Since(tl).Round(time.Millisecond))
+		}
+		return l, epc, ehdir
 	}
-	loadT := time.Since(t0)
-	fmt.Fprintf(os.Stderr, "[%s] loaded %s in %v\n", id, pc.Pkg, loadT.Round(time.Millisecond))
-
 	var outcomes []*entryOutcome
 	exit := 0
 	nViol := 0
@@ -210,6 +240,13 @@ func checkMain(args []string) int {
 		if ec.Skip == tier {
 			continue
 		}
+		ld, epc, ehdir := loadFor(ec)
+		if ld.err != nil {
+			fmt.Fprintln(os.Stderr, ld.err)
+			inconclusive = append(inconclusive, ec.Name+": harness does not load against the current tree: "+firstLine(ld.err.Error()))
+			continue
+		}
+		prog, pkg := ld.prog, ld.pkg
 		fn := pkg.Func(ec.Name)
 		if fn == nil {
 			inconclusive = append(inconclusive, "entry not found: "+ec.Name)
@@ -217,8 +254,8 @@ func checkMain(args []string) int {
 		}
 		e := newEngine(prog, pkg, []string{"z3", "-in"})
 		e.stopOnViol = 5000
-		e.extraNoop = pc.ExtraNoop
-		e.redirect = pc.Redirect
+		e.extraNoop = epc.ExtraNoop
+		e.redirect = epc.Redirect
 		e.solverFresh = pc.SolverMode == "fresh" || pc.SolverMode == "int-fresh"
 		e.solverInt = pc.SolverMode == "int" || pc.SolverMode == "int-fresh"
 		params := ec.Quick
@@ -310,7 +347,7 @@ func checkMain(args []string) int {
 			}
 			okReplay, how := false, ""
 			if mode == "native" {
-				okReplay, how = nativeReplay(verif, repo, pc, hdir, ec.Name, rp)
+				okReplay, how = nativeReplay(verif, repo, epc, ehdir, ec.Name, rp)
 				if !okReplay && hasPreemption(v) {
 					// the native scheduler cannot be forced into every cooperative schedule
 					nh := how
